@@ -1103,6 +1103,20 @@ fn exec(out: &mut Out, se: &mut Sess, cfg: &Cfg, line: &str) -> (String, String,
             if d != sd {
                 out.oracle_fail(&format!("peers.state.{}", digest_diff(&d, &sd)), &format!("registry answers {} but the specification says {}", d, sd), &se.history);
             }
+            // twins agree (both sides from the registry itself, independent of the specification)
+            for i in &ids {
+                let first = se.real.reg.aliases_for(PeerId(*i)).first().cloned();
+                if se.real.reg.key_for(PeerId(*i)) != first {
+                    out.oracle_fail("peers.twins.key_for", &format!("key_for({}) is not the first element of aliases_for({})", i, i), &se.history);
+                }
+            }
+            let mut snap: Vec<u64> = se.real.reg.peers().iter().map(|h| h.peer_id().0).collect();
+            snap.sort();
+            let mut via_get: Vec<u64> = ids.iter().cloned().filter(|i| se.real.reg.get(PeerId(*i)).is_some()).collect();
+            via_get.sort();
+            if snap != via_get || snap.len() != se.real.len() {
+                out.oracle_fail("peers.twins.peers", &format!("peers() lists {:?}, get() finds {:?}, len() = {}", snap, via_get, se.real.len()), &se.history);
+            }
             if se.real.reg.is_empty() != (se.real.len() == 0) {
                 out.oracle_fail("peers.state.is_empty", "is_empty() disagrees with len()", &se.history);
             }
